@@ -6,7 +6,7 @@ use crate::{expansion_of, span_str};
 use rustc_hir::def::DefKind;
 use rustc_hir::def_id::LocalDefId;
 use rustc_middle::mir::{self, *};
-use rustc_middle::ty::{self, TyCtxt};
+use rustc_middle::ty::{self, TyCtxt, TypeVisitableExt};
 
 struct Mx<'a, 'tcx> {
     tcx: TyCtxt<'tcx>,
@@ -68,9 +68,44 @@ impl<'a, 'tcx> Mx<'a, 'tcx> {
 
     fn constant(&self, c: &ConstOperand<'tcx>) -> J {
         let ty = c.const_.ty();
+        let mut shown = format!("{}", c.const_);
+        if let Const::Unevaluated(uv, _) = c.const_ {
+            // promoted constants (`&"o"`, `&b"10"`): show the value, not the promoted path.
+            // Only for non-generic promoteds: evaluation of generic ones would be "too generic".
+            if let Some(pidx) = uv.promoted {
+                let mut done = false;
+                if uv.def.is_local() {
+                    // read the literal out of the promoted body itself (`_0 = &_1; _1 = const b"0"`)
+                    let proms = self.tcx.promoted_mir(uv.def);
+                    if pidx.as_usize() < proms.len() {
+                        let pb = &proms[pidx];
+                        let mut lits = Vec::new();
+                        for bb in pb.basic_blocks.iter() {
+                            for st in bb.statements.iter() {
+                                if let StatementKind::Assign(b) = &st.kind {
+                                    if let Rvalue::Use(Operand::Constant(k), _) = &b.1 {
+                                        lits.push(format!("{}", k.const_));
+                                    }
+                                }
+                            }
+                        }
+                        if lits.len() == 1 {
+                            shown = lits.pop().unwrap();
+                            done = true;
+                        }
+                    }
+                }
+                if !done && !uv.args.iter().any(|a| a.has_non_region_param()) {
+                    let env = ty::TypingEnv::post_analysis(self.tcx, self.owner);
+                    if let Ok(val) = c.const_.eval(self.tcx, env, c.span) {
+                        shown = format!("{}", Const::Val(val, ty));
+                    }
+                }
+            }
+        }
         let mut v = vec![
             ("k", J::s("const")),
-            ("s", J::s(format!("{}", c.const_))),
+            ("s", J::s(shown)),
             ("ty", J::s(ty.to_string())),
         ];
         if let ty::FnDef(did, args) = ty.kind() {
@@ -141,8 +176,15 @@ impl<'a, 'tcx> Mx<'a, 'tcx> {
                     ty::Adt(a, _) => Some(def_path(self.tcx, a.did())),
                     _ => None,
                 };
+                let vnames = match pty.kind() {
+                    ty::Adt(a, _) if a.is_enum() => {
+                        J::Arr(a.variants().iter().map(|v| J::s(v.name.to_string())).collect())
+                    }
+                    _ => J::Null,
+                };
                 J::Obj(vec![
                     ("k", J::s("discr")),
+                    ("variants", vnames),
                     ("pl", self.place(p)),
                     ("adt", J::opt_s(adt)),
                     ("of", J::s(pty.to_string())),
